@@ -72,7 +72,23 @@ def check(tier):
         dB = vlib.build_driver(work, tags="purego", name="edrv_purego")
         mc = [vlib.model_check(work, "MC_LimbBounds", "MC_LimbBounds_real.cfg"),
               vlib.model_check(work, "MC_LimbBounds", "MC_LimbBounds_real_bug.cfg", expect_violation=True)]
+        asm = vlib.asm_model(work, "MC_Asm.cfg" if tier == "quick" else "MC_Asm_full.cfg")
+        mc.append(asm)
         progs = programs(tier)
+        if asm.get("failed") in ("InvMul", "InvSq") and asm.get("a"):
+            # the Asm machine found operands on which the assembly of the working tree misbehaves: confirm on the real builds
+            import progdsl
+            cp = progdsl.Prog(max(p["id"] for p in progs) + 1, "operands of the Asm-model counterexample (%s)" % asm["failed"])
+            cp.inject("e0", asm["a"])
+            cp.inject("e1", asm["b"] or [0] * 5)
+            cp.op("Elem.Multiply", r="e2", a=["e0", "e1"])
+            cp.op("Elem.Square", r="e3", a=["e0"])
+            cp.op("Elem.Bytes", r="e2", o=["b0"])
+            cp.op("Elem.Bytes", r="e3", o=["b1"])
+            progs.append(cp.to_json())
+        elif asm.get("failed"):
+            print("NOTE: the Asm model reports %s for the arm64 routine of the working tree (it cannot be executed on this machine; "
+                  "recorded in the evidence, no verdict)" % asm["failed"])
         fails, tot, api_fail = run_pair(work, dA, dB, progs, "c20")
         tot["states"] += sum(r["states"] for r in mc)
         tot["transitions"] += sum(r["transitions"] for r in mc)
@@ -80,6 +96,9 @@ def check(tier):
         if infra:
             raise Infra("the two traces are out of step: %s" % json.dumps([{k: v for k, v in f.items() if k != "program"} for f in infra[:2]]))
         own = [f for f in fails if any(x["prop"] == PROP for x in f["fails"])]
+        if asm.get("failed") in ("InvMul", "InvSq") and not own and not api_fail["default"]:
+            raise Infra("the Asm model rejects the assembly of the working tree (%s, a=%s b=%s) but the real builds agree on these operands: "
+                        "a defect of spec/Asm.tla or of the extraction" % (asm["failed"], asm.get("a"), asm.get("b")))
         drift = sum(1 for f in fails if all(x["prop"] == "INFO" for x in f["fails"]))
         cov = {
             "states": max(tot["states"], 1), "transitions": max(tot["transitions"], 1),
